@@ -125,6 +125,7 @@ def lib_roundtrip(rng, res):
         open("src/a.txt", "w").write("a %d\n" % rng.randrange(99))
         open("b.txt", "w").write("b\n")
         mode = rng.choice(["run", "record", "record_with_args", "mock"])
+        shadow_seed = rng.randrange(10**9)
         # library-only arguments of in_toto_record_stop
         stop_kw = {}
         if mode == "record_with_args":
@@ -167,12 +168,21 @@ def lib_roundtrip(rng, res):
                 sig2 = type(e).__name__
             from harness import cli
             fn = "st.%s.link" % k.keyid[:8]
+            # the same file with one more signature entry before the genuine one: a key id that is a fragment of the
+            # signer's (or empty) and a value that verifies for nobody. Signatures are found by exact key id in either format.
+            import json as _j, random as _r
+            sh = scen.shadow_signature(_j.load(open(fn, encoding="utf8")), _r.Random(shadow_seed))
+            _j.dump(sh[0], open("shadow.link", "w", encoding="utf8"))
+            try:
+                Metadata.load("shadow.link").verify_signature(k.pub); sig_sh = "ok"
+            except Exception as e:  # pylint: disable=broad-except
+                sig_sh = type(e).__name__
             cli_equal = cli.run_main("in_toto_match_products", ["--link", fn, "--exclude", "*.link"])[0]
             open("b.txt", "a").write("changed\n")
             rep = rl.in_toto_match_products(loaded.get_payload())
             cli_differ = cli.run_main("in_toto_match_products", ["--link", fn, "--exclude", "*.link"])[0]
             open("b.txt", "w").write("b\n")
-            outs[dsse] = {"payload": payload, "sig": sig, "sig_other_key": sig2,
+            outs[dsse] = {"payload": payload, "sig": sig, "sig_other_key": sig2, "sig_with_shadow_entry": sig_sh,
                           "match": [sorted(x) for x in rep], "is_envelope": type(loaded).__name__,
                           "cli_match_products_equal_tree": cli_equal, "cli_match_products_changed_tree": cli_differ}
         import json as _json
